@@ -218,7 +218,7 @@ pub fn run(cfg: &Cfg) -> Report {
             symbols.push(x);
         }
     }
-    symbols.extend(gen::random_larger_2d_symbols(seed, cfg.tier.pick(60_000, 300_000), cfg.tier.pick(16, 30), &[1, 1, 1, 2, 2, 3, 4, 5, 6, 7, 10, 12, 15]));
+    symbols.extend(gen::random_larger_2d_symbols(seed, cfg.tier.pick(60_000, 1_200_000), cfg.tier.pick(16, 30), &[1, 1, 1, 2, 2, 3, 4, 5, 6, 7, 10, 12, 15]));
     for (_, s) in gen::structured_2d_sets() {
         for _ in 0..cfg.tier.pick(3, 20) {
             symbols.push(gen::random_branching(&mut rng0, &s, &[1, 1, 1, 2, 3, 10, 11, 99, 100, 101]));
